@@ -228,6 +228,64 @@ pub fn compact(e: &Value, out: &mut Vec<Value>) {
     }
 }
 
+/// Streaming compaction of a whole run.  A pool worker that finds the sieve finished goes through
+/// "task, (pre_poll, fin_done,) task_skip" once per remaining work item (MPQS: 100 000 blocks): after the
+/// first two such skip cycles of a thread the following ones are only counted (entry 29: [29, tid, count]).
+/// The events of a cycle are buffered until it is known whether it skips or starts a unit, so a buffered
+/// cycle may appear later than it happened relative to other threads (never reordered within its thread).
+pub fn compact_all(events: &[Value]) -> Vec<Value> {
+    let mut out: Vec<Value> = vec![];
+    let mut buf: HashMap<i64, Vec<Value>> = HashMap::new(); // tid -> buffered cycle
+    let mut cycles: HashMap<i64, usize> = HashMap::new(); // tid -> consecutive skip cycles so far
+    let mut dropped: HashMap<i64, i64> = HashMap::new();
+    for e in events {
+        let tid = gi(e, "tid");
+        let op = e["op"].as_str().unwrap_or("");
+        match op {
+            "task" => {
+                if let Some(b) = buf.remove(&tid) {
+                    out.extend(b); // unfinished cycle (should not happen)
+                }
+                let mut v = vec![];
+                compact(e, &mut v);
+                buf.insert(tid, v);
+            }
+            "task_skip" => {
+                let mut b = buf.remove(&tid).unwrap_or_default();
+                compact(e, &mut b);
+                let c = cycles.entry(tid).or_insert(0);
+                *c += 1;
+                if *c <= 2 {
+                    out.extend(b);
+                } else {
+                    *dropped.entry(tid).or_insert(0) += 1;
+                }
+            }
+            "pre_poll" | "fin_done" | "poll" | "r_len" if buf.contains_key(&tid) => {
+                compact(e, buf.get_mut(&tid).unwrap());
+            }
+            _ => {
+                if let Some(b) = buf.remove(&tid) {
+                    out.extend(b);
+                    cycles.insert(tid, 0);
+                }
+                compact(e, &mut out);
+            }
+        }
+    }
+    let mut rest: Vec<_> = buf.into_iter().collect();
+    rest.sort_by_key(|x| x.0);
+    for (_, b) in rest {
+        out.extend(b);
+    }
+    let mut d: Vec<_> = dropped.into_iter().collect();
+    d.sort();
+    for (tid, n) in d {
+        out.push(json!([29, tid, n.min(2_000_000_000), 0, 0]));
+    }
+    out
+}
+
 /// An input: product of certified primes.
 pub struct Input {
     pub id: String,
@@ -277,6 +335,7 @@ struct Gate {
     done_store: AtomicUsize,
     rlen: AtomicUsize,
     holds: AtomicUsize,
+    holding: AtomicUsize,
 }
 
 fn thread_rng(seed: u64) -> StdRng {
@@ -312,7 +371,7 @@ fn wait_until(cond: impl Fn() -> bool, timeout: Duration) -> bool {
 /// Installs the scheduling callback of a perturbation.  Returns counters (gate hits) for the log.
 pub fn install_pert(p: &Pert) -> Arc<[AtomicUsize; 3]> {
     let stats: Arc<[AtomicUsize; 3]> = Arc::new([AtomicUsize::new(0), AtomicUsize::new(0), AtomicUsize::new(0)]);
-    let g = Arc::new(Gate { done_store: AtomicUsize::new(0), rlen: AtomicUsize::new(0), holds: AtomicUsize::new(0) });
+    let g = Arc::new(Gate { done_store: AtomicUsize::new(0), rlen: AtomicUsize::new(0), holds: AtomicUsize::new(0), holding: AtomicUsize::new(0) });
     let kind = p.kind.clone();
     let seed = p.seed;
     let st = stats.clone();
@@ -347,14 +406,20 @@ pub fn install_pert(p: &Pert) -> Arc<[AtomicUsize; 3]> {
             }
             // "hold the thread that just executed ReadGap (non-zero) until another thread executes StoreDone"
             "gapgate" => {
-                if id == "siqs.gap.store.nz" && g.holds.fetch_add(1, Ordering::SeqCst) < 6 {
+                // one thread at a time is held (the others must be free to reach gap = 0)
+                if id == "siqs.gap.store.nz"
+                    && g.holds.load(Ordering::SeqCst) < 6
+                    && g.holding.compare_exchange(0, 1, Ordering::SeqCst, Ordering::SeqCst).is_ok()
+                {
+                    g.holds.fetch_add(1, Ordering::SeqCst);
                     let d0 = g.done_store.load(Ordering::SeqCst);
                     st[0].fetch_add(1, Ordering::Relaxed);
-                    if wait_until(|| g.done_store.load(Ordering::SeqCst) > d0, Duration::from_millis(300)) {
+                    if wait_until(|| g.done_store.load(Ordering::SeqCst) > d0, Duration::from_millis(400)) {
                         st[1].fetch_add(1, Ordering::Relaxed);
                         // let the other thread really perform its store
-                        std::thread::sleep(Duration::from_micros(300));
+                        std::thread::sleep(Duration::from_micros(500));
                     }
+                    g.holding.store(0, Ordering::SeqCst);
                 }
             }
             // "hold a writer between two inserts until k readers have passed"
@@ -455,12 +520,26 @@ pub fn run(args: &Args) -> i32 {
         shapes.extend(vec![("b52", vec![26, 26]), ("b60", vec![30, 30]), ("b86", vec![43, 43]), ("b96", vec![48, 48]),
                            ("t100", vec![33, 33, 34]), ("q96", vec![24, 24, 24, 24])]);
     }
+    // --bits a,b,..: extra semiprime inputs of the given sizes (experiments / replays)
+    let extra_bits: Vec<u32> = args.get("bits").map(|s| s.split(',').filter_map(|x| x.parse().ok()).collect()).unwrap_or_default();
+    let extra_names: Vec<String> = extra_bits.iter().map(|b| format!("x{}", b)).collect();
+    for (i, b) in extra_bits.iter().enumerate() {
+        shapes.push((Box::leak(extra_names[i].clone().into_boxed_str()), vec![b / 2, b - b / 2]));
+    }
+    let sels_arg: Option<Vec<String>> = args.get("sels").map(|s| s.split(',').map(|x| x.to_string()).collect());
     let variants = [
         Variant { key: "def", use_double: None, large_factor: None, fb_size: None },
         Variant { key: "dbl", use_double: Some(true), large_factor: Some(40), fb_size: None },
         Variant { key: "nolp", use_double: Some(false), large_factor: Some(1), fb_size: None },
         Variant { key: "bigfb", use_double: Some(false), large_factor: None, fb_size: Some(400) },
     ];
+    // --fbs a,b,c: additional oversized factor bases (attempts to reach gap = 0 with len <= fb, the
+    // precondition of the stale-gap panic of the model)
+    let extra_fbs: Vec<u32> = args.get("fbs").map(|s| s.split(',').filter_map(|x| x.parse().ok()).collect()).unwrap_or_default();
+    let mut variants: Vec<Variant> = variants.to_vec();
+    for f in &extra_fbs {
+        variants.push(Variant { key: Box::leak(format!("fb{}", f).into_boxed_str()), use_double: Some(false), large_factor: None, fb_size: Some(*f) });
+    }
     let selectors = ["Siqs", "Mpqs", "Qs", "Ecm", "Auto"];
     let threads = [1usize, 2, 3, 4, 8, 16];
     let perts_per = if thorough { 100 } else { 4 }; // per (input, selector): total >= 20 per (selector, threads) over inputs
@@ -483,6 +562,11 @@ pub fn run(args: &Args) -> i32 {
         out.ev(input_event(&inp));
         let mut runno = 0;
         for sel in selectors {
+            if let Some(ss) = &sels_arg {
+                if !ss.iter().any(|x| x == sel) {
+                    continue;
+                }
+            }
             let alg = algo_of(sel);
             // sieve preference variants only matter for the sieves; Qs is slow above 80 bits
             let vars: Vec<&Variant> = match sel {
@@ -498,12 +582,16 @@ pub fn run(args: &Args) -> i32 {
                 if v.key == "bigfb" && inp.n.bits() > 80 {
                     continue;
                 }
+                let probe = v.key.starts_with("fb");
                 // baseline: no pool at all
                 let mut todo: Vec<(Option<usize>, Pert)> = vec![(None, Pert { kind: "none".into(), seed: 0 })];
-                for _ in 0..perts_per {
+                let np = if sel == "Ecm" || sel == "Auto" { perts_per * 5 / 2 } else { perts_per };
+                for _ in 0..np {
                     let t = threads[prng.gen_range(0..threads.len())];
+                    let t = if probe { 2 + (t % 2) } else { t };
                     let kind = gate_kinds[prng.gen_range(0..gate_kinds.len())];
                     // gates are about the SIQS/MPQS/ECM flags; other selectors get random perturbation
+                    let kind = if probe && t > 1 { "gapgate" } else { kind };
                     let kind = if (kind == "gapgate" && !(sel == "Siqs" || sel == "Auto")) || t == 1 { "rand" } else { kind };
                     todo.push((Some(t), Pert { kind: kind.into(), seed: prng.gen::<u32>() as u64 }));
                 }
@@ -517,10 +605,7 @@ pub fn run(args: &Args) -> i32 {
                         prefs.should_abort = Some(logging_never_abort(polls));
                         prefs
                     }, idle_s);
-                    let mut evs = vec![];
-                    for e in &r.events {
-                        compact(e, &mut evs);
-                    }
+                    let evs = compact_all(&r.events);
                     let mut e = json!({
                         "op": "run", "case": inp.id, "run": format!("{}/{}/{}/t{}/{}{}#{}", inp.id, sel, v.key,
                             t.map(|x| x as i64).unwrap_or(0), pert.kind, pert.seed, runno),
